@@ -6,21 +6,25 @@
    Paths are Go strings here exactly as in the Go code; bsonkit.Get/Put/Unset
    are the validated definitions of Access.v.
 
-   Values vs. memory.  `Project` is the VALUE model: documents are values, so
-   the source document cannot change.  The Go code shares memory between the
-   source document and the result (inclusion stores the bson.D / bson.A
-   headers returned by bsonkit.Get; merge values are sub-slices of the
-   source's arrays), and the merge step (lines 107-112) writes through that
-   sharing.  `project_src` adds the source document after the call; see the
-   comment at `alias_roots`.
+   Values vs. memory.  Documents are values here.  Since /repo 878ebea every
+   value that Project stores in its result is a private deep copy
+   (cloneProjected, lines 76, 95, 118), so the result shares no memory with
+   the source document and no Put on the result can reach it; `project_src`
+   returns the source document after the call on that basis (see
+   `alias_roots`).  Before 878ebea inclusion stored the source's own bson.D /
+   bson.A headers and the merge step wrote through them (the recorded, now
+   fixed, findings C14:colliding-paths-write-through and
+   C14:nested-operator-paths-write-through).
 
-   Map iteration.  project.go:107 ranges over the Go map state.merge; the
+   Map iteration.  project.go:117 ranges over the Go map state.merge; the
    model applies the overlays in order of first insertion (= order of first
    appearance of the operator path in the projection).  The outcome of the Go
    code is independent of that order exactly when no two merge paths overlap
    (see `order_dependent`), up to the position of fields the merge step
    creates; the runner canonicalises accordingly (`run_project`). *)
 From Lungo.Model Require Export Access.
+From Lungo.Model Require Import Match RunMatch.
+Open Scope string_scope.
 Open Scope Z_scope.
 
 (* ------------------------------------------------------------------ *)
@@ -122,17 +126,6 @@ Arguments ctx_top_level {S}.
 (* int64 wrap-around of +, - *)
 Definition wrap64 (z : Z) : Z := (z + two63) mod two64 - two63.
 
-(* int(float64): truncation toward zero when the result fits int64.  NaN,
-   infinities and out-of-range values are implementation-specific in Go:
-   Unmodelled (the harness prints UNMODELLED for them by the same test). *)
-Definition int_of_double (bits : Z) : res Z :=
-  match xnum_of_double bits with
-  | XFin q =>
-      let t := Z.quot (Qnum q) (Zpos (Qden q)) in
-      if (- two63 <=? t) && (t <? two63) then Ok t else Unmodelled
-  | _ => Unmodelled
-  end.
-
 (* the Go slice expression a[lo:hi] on a slice whose capacity is not
    exceeded by hi at any call site of projectSlice (hi <= len or hi < 0) *)
 Definition go_slice (a : list value) (lo hi : Z) : res (list value) :=
@@ -213,89 +206,113 @@ Definition project_condition : operator pstate := fun st _ _ path v =>
   else if String.eqb path "_id" then Ok (set_hide_id st)     (* :144-145 *)
   else Ok (add_exclude st path).                             (* :147 *)
 
-(* :241-252 projectSliceInt; None = (0, false) *)
-Definition project_slice_int (v : value) : res (option Z) :=
+(* :270-294 projectSliceInt; None = (0, false).  int64 and float64 arguments
+   are clamped to +-math.MaxInt32, NaN is not a number; int(n) truncates
+   toward zero. *)
+Definition max_int32 : Z := 2147483647.
+
+Definition clamp_int32 (z : Z) : Z :=
+  if max_int32 <? z then max_int32                            (* :276-277, :285-286 *)
+  else if z <? - max_int32 then - max_int32                   (* :278-279, :287-288 *)
+  else z.
+
+Definition project_slice_int (v : value) : option Z :=
   match v with
-  | VInt32 z => Ok (Some z)
-  | VInt64 z => Ok (Some z)
-  | VDouble b => let* z := int_of_double b in Ok (Some z)
-  | _ => Ok None
+  | VInt32 z => Some z                                       (* :273-274 *)
+  | VInt64 z => Some (clamp_int32 z)                         (* :275-281 *)
+  | VDouble b =>                                             (* :282-290 *)
+      match xnum_of_double b with
+      | XNaN => None                                         (* :283-284 *)
+      | XPosInf => Some max_int32
+      | XNegInf => Some (- max_int32)
+      | XFin q =>
+          if Qle_bool q (max_int32 # 1) then
+            if Qle_bool ((- max_int32) # 1) q then Some (Z.quot (Qnum q) (Zpos (Qden q)))
+            else Some (- max_int32)
+          else Some max_int32
+      end
+  | _ => None                                                (* :291-292 *)
   end.
 
-(* :196-216 the [skip, limit] window of an array of length n *)
+(* :222-243 the [skip, limit] window of an array of length n *)
 Definition slice_skip_limit (a : list value) (skip limit : Z) : res (list value) :=
   let n := len a in
   let start :=
-    if skip <? 0 then (if n + skip <? 0 then 0 else n + skip)          (* :200-204 *)
-    else (if n <? skip then n else skip) in                            (* :206-209 *)
-  let end_ := wrap64 (start + limit) in                                (* :211 *)
-  let end_ := if n <? end_ then n else end_ in                         (* :212-214 *)
-  go_slice a start end_.                                               (* :215 *)
+    if skip <? 0 then (if n + skip <? 0 then 0 else n + skip)          (* :226-230 *)
+    else (if n <? skip then n else skip) in                            (* :232-235 *)
+  let end_ := wrap64 (start + limit) in                                (* :237 *)
+  let end_ := if n <? end_ then n else end_ in                         (* :238-240 *)
+  go_slice a start end_.                                               (* :241 *)
 
-(* :219-236 the limit-only window *)
+(* :245-262 the limit-only window *)
 Definition slice_limit (a : list value) (limit : Z) : res (list value) :=
-  if 0 <? limit then                                                   (* :221 *)
-    if limit <? len a then go_slice a 0 limit else Ok a                (* :222-226 *)
-  else if limit <? 0 then                                              (* :227 *)
-    let n := wrap64 (- limit) in                                       (* :228 *)
-    if n <? len a then go_slice a (wrap64 (len a - n)) (len a)         (* :229-230 *)
-    else Ok a                                                          (* :232 *)
-  else Ok [].                                                          (* :235 *)
+  if 0 <? limit then                                                   (* :247 *)
+    if limit <? len a then go_slice a 0 limit else Ok a                (* :248-252 *)
+  else if limit <? 0 then                                              (* :253 *)
+    let n := wrap64 (- limit) in                                       (* :254 *)
+    if n <? len a then go_slice a (wrap64 (len a - n)) (len a)         (* :255-256 *)
+    else Ok a                                                          (* :258 *)
+  else Ok [].                                                          (* :261 *)
 
-(* :153-239 projectSlice *)
+(* :179-265 projectSlice *)
 Definition project_slice : operator pstate := fun st d _ path v =>
   let* arg :=                                                (* (skip, limit, hasSkip) *)
     match v with
-    | VInt32 z => Ok (0, z, false)                           (* :162-165 *)
-    | VInt64 z => Ok (0, z, false)
-    | VDouble b => let* z := int_of_double b in Ok (0, z, false)   (* :166-167 *)
-    | VArr nn =>                                             (* :168 *)
+    | VInt32 _ | VInt64 _ | VDouble _ =>                     (* :188 *)
+        match project_slice_int v with                       (* :189 *)
+        | Some l => Ok (0, l, false)                         (* :193 *)
+        | None => Err                                        (* :190-192 *)
+        end
+    | VArr nn =>                                             (* :194 *)
         match nn with
         | [x; y] =>
-            let* s := project_slice_int x in                 (* :172 *)
-            match s with
-            | None => Err                                    (* :173-175 *)
+            match project_slice_int x with                   (* :198 *)
+            | None => Err                                    (* :199-201 *)
             | Some s =>
-                let* l := project_slice_int y in             (* :176 *)
-                match l with
-                | None => Err                                (* :177-179 *)
-                | Some l => if l <? 0 then Err else Ok (s, l, true)   (* :180-185 *)
+                match project_slice_int y with               (* :202 *)
+                | None => Err                                (* :203-205 *)
+                | Some l => if l <? 0 then Err else Ok (s, l, true)   (* :206-211 *)
                 end
             end
-        | _ => Err                                           (* :169-171 *)
+        | _ => Err                                           (* :195-197 *)
         end
-    | _ => Err                                               (* :186-187 *)
+    | _ => Err                                               (* :212-213 *)
     end in
   let '(skip, limit, has_skip) := arg in
-  match Get d path with                                      (* :191 *)
+  match Get d path with                                      (* :217 *)
   | VArr a =>
       let* w := if has_skip then slice_skip_limit a skip limit else slice_limit a limit in
       Ok (set_merge st path (VArr w))
-  | _ => Ok st                                               (* :192-194 *)
+  | _ => Ok st                                               (* :218-220 *)
   end.
 
-(* :80-94 copy included fields *)
+(* :136-146 cloneProjected: a private deep copy (bsonkit.ConvertValue rebuilds
+   every bson.D / bson.A); the identity on values.  ConvertValue fails only
+   on Go types outside the BSON universe of Bson.v. *)
+Definition clone_projected (v : value) : res value := Ok v.
+
+(* :87-105 copy included fields *)
 Fixpoint copy_included (d : doc) (skip : list string) (paths : list string) (r : doc) : res doc :=
   match paths with
   | [] => Ok r
   | path :: t =>
-      if str_mem path skip then copy_included d skip t r   (* :84-86 *)
+      if str_mem path skip then copy_included d skip t r   (* :91-93 *)
       else
-        let v := Get d path in                             (* :87 *)
-        if is_missing v then copy_included d skip t r      (* :88 *)
+        let v := Get d path in                             (* :94 *)
+        if is_missing v then copy_included d skip t r      (* :95 *)
         else
           let* (_, r') := Put r path v false in            (* :89-92 *)
           copy_included d skip t r'
   end.
 
-(* :101-103 *)
+(* :111-113 *)
 Fixpoint apply_exclusions (paths : list string) (r : doc) : doc :=
   match paths with
   | [] => r
   | path :: t => apply_exclusions t (snd (Unset r path))
   end.
 
-(* :107-112, in list order (the Go code: map order) *)
+(* :117-126, in list order (the Go code: map order) *)
 Fixpoint apply_merges (m : list (string * value)) (r : doc) : res doc :=
   match m with
   | [] => Ok r
@@ -304,42 +321,45 @@ Fixpoint apply_merges (m : list (string * value)) (r : doc) : res doc :=
       apply_merges t r'
   end.
 
-(* :60-119 everything after Process *)
+(* :61-133 everything after Process *)
 Definition project_state (st : pstate) (d : doc) : res doc :=
   match ps_include st, ps_exclude st with
-  | _ :: _, _ :: _ => Err                                  (* :61-63 *)
+  | _ :: _, _ :: _ => Err                                  (* :62-64 *)
   | inc, exc =>
       let* r :=
         match inc with
-        | _ :: _ =>                                        (* :69 *)
+        | _ :: _ =>                                        (* :70 *)
             let* (_, r0) := Put [] "_id" (Get d "_id") false in   (* :71-77 *)
             copy_included d (ps_skip st) inc r0
-        | [] =>                                            (* :95-104: Clone is the identity on values *)
+        | [] =>                                            (* :106-114: Clone is the identity on values *)
             Ok (apply_exclusions exc d)
         end in
-      let* r := apply_merges (ps_merge st) r in            (* :107-112 *)
-      Ok (if ps_hide_id st then snd (Unset r "_id") else r)   (* :115-117 *)
+      let* r := apply_merges (ps_merge st) r in            (* :117-126 *)
+      Ok (if ps_hide_id st then snd (Unset r "_id") else r)   (* :129-131 *)
   end.
 
 (* ---------------------------------------------------------------- *)
 (* The source document after the call.
 
    Memory sharing in the Go code: bsonkit.Get returns the stored bson.D /
-   bson.A header, and Put(res, p, Get(doc, p)) stores that header, so the
-   node of `res` at p IS the node of `doc` at p (an "alias root").  A later
-   Put(res, q, v) whose path runs through an alias root p, |p| < |q|, makes
-   its final assignment (access.go:180 / :223) inside the shared node,
-   i.e. in the source document, at q.  A Put AT an alias root replaces the
-   header in the fresh parent and does not touch the source.  During the
-   inclusion phase such writes store the value that is already there
-   (Get(doc, q) itself), so only the merge step changes the source.
+   bson.A header.  If Put(res, p, v) stores that header itself (provenance
+   Shared), the node of `res` at p IS the node of `doc` at p (an "alias
+   root"), and a later Put(res, q, w) whose path runs through an alias root
+   p, |p| < |q|, makes its final assignment (access.go:180 / :223) inside the
+   shared node, i.e. in the source document, at q.  A Put AT an alias root
+   replaces the header in the fresh parent and does not touch the source.
+   If the value is first copied (provenance Copied: cloneProjected) no alias
+   root arises.
 
-   alias_roots: the alias roots of `res` after lines 71-94, as segment
-   lists.  Valid when no two merge paths overlap (then the merge step
-   neither removes a root another merge runs through nor reads what
-   another merge wrote) and no two projection paths name the same array
-   element by different spellings ("0" / "00"); the runner excludes both
-   (`order_dependent`, `spelling_clash`). *)
+   /repo since 878ebea copies at all three places (lines 76, 95, 118):
+   `stored_provenance = Copied`, there are no alias roots and the source is
+   never written.  With Shared the same definitions give the behaviour
+   before 878ebea (the write-through of the merge step; valid when no two
+   merge paths overlap), kept as a history lemma in Proofs/ProjectProofs.v. *)
+
+Inductive provenance : Type := Shared | Copied.
+
+Definition stored_provenance : provenance := Copied.
 
 Fixpoint is_prefix (p q : path) : bool :=
   match p, q with
@@ -355,19 +375,26 @@ Definition add_root (roots : list path) (p : path) : list path :=
   if existsb (fun r => proper_prefix r p) roots then roots       (* the Put lands inside a shared node *)
   else p :: filter (fun r => negb (is_prefix p r)) roots.        (* the Put replaces what was below p *)
 
-Fixpoint include_roots (d : doc) (skip : list string) (paths : list string) (roots : list path) : list path :=
+Fixpoint include_roots (prov : provenance) (d : doc) (skip : list string) (paths : list string)
+         (roots : list path) : list path :=
   match paths with
   | [] => roots
   | path :: t =>
-      if str_mem path skip then include_roots d skip t roots
-      else if is_missing (Get d path) then include_roots d skip t roots
-      else include_roots d skip t (add_root roots (split_path path))
+      if str_mem path skip then include_roots prov d skip t roots
+      else if is_missing (Get d path) then include_roots prov d skip t roots
+      else include_roots prov d skip t
+             (match prov with
+              | Shared => add_root roots (split_path path)
+              | Copied => roots
+              end)
   end.
 
-Definition alias_roots (st : pstate) (d : doc) : list path :=
+Definition alias_roots (prov : provenance) (st : pstate) (d : doc) : list path :=
   match ps_include st with
   | [] => []                                               (* exclusion: res is a deep clone *)
-  | inc => include_roots d (ps_skip st) inc [["_id"]]      (* :74 copies _id first *)
+  | inc =>
+      include_roots prov d (ps_skip st) inc
+        (match prov with Shared => [["_id"]] | Copied => [] end)   (* :76-83 copies _id first *)
   end.
 
 Definition writes_through (roots : list path) (q : string) : bool :=
@@ -390,7 +417,7 @@ Section WithMatch.
      doc, query, "", true): Ok true = nil, Ok false = ErrNotMatched *)
   Variable matchf : doc -> doc -> res bool.
 
-  (* :283-287: Process(queryCtx, &bson.D{{"item", item}}, query, "item", false).
+  (* :326-329: Process(queryCtx, &bson.D{{"item", item}}, query, "item", false).
      With prefix "item" and root = false, a pair whose key is an operator
      calls Expression[key] with path "item" (process.go:72-82) and any other
      pair is a field condition on "item."+key (process.go:105-108).  The same
@@ -405,33 +432,33 @@ Section WithMatch.
   Definition elem_matches (item : value) (q : doc) : res bool :=
     matchf [("item", item)] (elem_query q).
 
-  (* :283-298 find first matching element *)
+  (* :325-340 find first matching element *)
   Fixpoint first_match (a : list value) (q : doc) : res (option value) :=
     match a with
     | [] => Ok None
     | item :: t =>
         let* m := elem_matches item q in
-        if m then Ok (Some item) else first_match t q        (* :288-289 continue *)
+        if m then Ok (Some item) else first_match t q        (* :330-331 continue *)
     end.
 
-  (* :254-301 projectElemMatch *)
+  (* :296-343 projectElemMatch *)
   Definition project_elem_match : operator pstate := fun st d _ path v =>
     match v with
-    | VDoc query =>                                          (* :259 *)
-        let st1 := add_skip (add_include st path) path in    (* :267-268 *)
-        match Get d path with                                (* :271 *)
+    | VDoc query =>                                          (* :301 *)
+        let st1 := add_skip (add_include st path) path in    (* :309-310 *)
+        match Get d path with                                (* :313 *)
         | VArr a =>
             let* m := first_match a query in
             match m with
-            | Some item => Ok (set_merge st1 path (VArr [item]))   (* :295 *)
-            | None => Ok st1                                 (* :300 *)
+            | Some item => Ok (set_merge st1 path (VArr [item]))   (* :337 *)
+            | None => Ok st1                                 (* :342 *)
             end
-        | _ => Ok st1                                        (* :272-274 *)
+        | _ => Ok st1                                        (* :314-316 *)
         end
-    | _ => Err                                               (* :260-262 *)
+    | _ => Err                                               (* :302-304 *)
     end.
 
-  (* :14-19 init(): ProjectionExpressionOperators *)
+  (* :15-20 init(): ProjectionExpressionOperators *)
   Definition projection_operator_names : list string := [""; "$slice"; "$elemMatch"].
 
   Definition projection_operators : list (string * operator pstate) :=
@@ -439,34 +466,38 @@ Section WithMatch.
     ; ("$slice", project_slice)
     ; ("$elemMatch", project_elem_match) ].
 
-  (* :52-55 Context{Expression: ProjectionExpressionOperators, Value: &state} *)
+  (* :53-56 Context{Expression: ProjectionExpressionOperators, Value: &state} *)
   Definition projection_context : context pstate :=
     Build_context [] projection_operators false false.
 
   Definition project_process (d pr : doc) : res pstate :=
     process projection_context pstate0 d pr "" true.
 
-  (* :44-120 Project *)
+  (* :45-134 Project *)
   Definition project_with (d pr : doc) : res doc :=
     let* st := project_process d pr in
     project_state st d.
 
-  (* (result, source document after the call) *)
-  Definition project_src_with (d pr : doc) : res (doc * doc) :=
+  (* (result, source document after the call), for either provenance of the
+     values stored in the result *)
+  Definition project_src_gen (prov : provenance) (d pr : doc) : res (doc * doc) :=
     let* st := project_process d pr in
     let* r := project_state st d in
-    Ok (r, source_after (alias_roots st d) (ps_merge st) d).
+    Ok (r, source_after (alias_roots prov st d) (ps_merge st) d).
+
+  Definition project_src_with : doc -> doc -> res (doc * doc) :=
+    project_src_gen stored_provenance.
 End WithMatch.
 
 (* ------------------------------------------------------------------ *)
-(* Instantiation point.  Until Model/Match.v exists the matcher is a stub;
-   replace `stub_match` by the real matcher here (and drop `has_elem_match`
-   from `pr_unmodelled` below and `projUnmodelled` in harness/fam_project.go). *)
+(* Instantiation: the matcher is Model/Match.v (mongokit.Match).  What
+   projectElemMatch calls is Process(ctx, {item: e}, q, "item", false);
+   elem_query turns it into the root-level call Match {item: e} (elem_query q)
+   (Proofs/ProjectProofs.v, elem_matches_process_nr: equal to Match.v's own
+   model of that non-root call, process_nr). *)
 
-Definition stub_match (_ _ : doc) : res bool := Unmodelled.
-
-Definition Project : doc -> doc -> res doc := project_with stub_match.
-Definition project_src : doc -> doc -> res (doc * doc) := project_src_with stub_match.
+Definition Project : doc -> doc -> res doc := project_with Match.
+Definition project_src : doc -> doc -> res (doc * doc) := project_src_with Match.
 
 (* ------------------------------------------------------------------ *)
 (* Runner of family `project`.                                          *)
@@ -485,33 +516,21 @@ Fixpoint has_key (k : string) (d : list (string * value)) : bool :=
   | (k', _) :: t => String.eqb k' k || has_key k t
   end.
 
-Definition has_elem_match (pr : doc) : bool :=
-  existsb (fun kv => match snd kv with
-                     | VDoc e => operator_entry kv && has_key "$elemMatch" e
-                     | _ => false
-                     end) pr.
+(* the $elemMatch queries of a projection *)
+Definition elem_match_queries (pr : doc) : list value :=
+  flat_map (fun kv => match snd kv with
+                      | VDoc e =>
+                          if operator_entry kv
+                          then flat_map (fun kv' => if String.eqb (fst kv') "$elemMatch" then [snd kv'] else []) e
+                          else []
+                      | _ => []
+                      end) pr.
 
-(* a $slice argument holding a double whose int conversion is not modelled *)
-Definition bad_double (v : value) : bool :=
-  match v with
-  | VDouble b => match int_of_double b with Ok _ => false | _ => true end
-  | _ => false
-  end.
-
-Definition has_bad_slice_arg (pr : doc) : bool :=
-  existsb (fun kv => match snd kv with
-                     | VDoc e =>
-                         operator_entry kv &&
-                         existsb (fun kv' =>
-                                    String.eqb (fst kv') "$slice" &&
-                                    match snd kv' with
-                                    | VArr l => existsb bad_double l
-                                    | x => bad_double x
-                                    end) e
-                     | _ => false
-                     end) pr.
-
-Definition pr_unmodelled (pr : doc) : bool := has_elem_match pr || has_bad_slice_arg pr.
+(* the matcher's syntactic UNMODELLED rule (RunMatch.unmodelled_syn: schema
+   patterns, decimal multipleOf, huge $bits positions) applied to every
+   $elemMatch query against every document of the case *)
+Definition pr_unmodelled (docs : list doc) (pr : doc) : bool :=
+  existsb (fun q => existsb (fun d => unmodelled_syn (VDoc d) q) docs) (elem_match_queries pr).
 
 (* normalised segment: all-digit segments by their numeric value *)
 Fixpoint strip_zeros (s : string) : string :=
@@ -558,20 +577,6 @@ Definition multi_operator (pr : doc) : bool :=
   | _ => false
   end.
 
-(* the same array element named with two spellings at the first position
-   where two projection paths differ *)
-Fixpoint spelling_diff (p q : path) : bool :=
-  match p, q with
-  | x :: p', y :: q' =>
-      if String.eqb x y then spelling_diff p' q'
-      else String.eqb (norm_seg x) (norm_seg y)
-  | _, _ => false
-  end.
-
-Definition spelling_clash (pr : doc) : bool :=
-  let ks := map (fun kv => split_path (fst kv)) pr in
-  existsb (fun p => existsb (fun q => spelling_diff p q) ks) ks.
-
 (* does v count as an inclusion / exclusion for projectCondition *)
 Definition is_inclusion_value (v : value) : bool :=
   match condition_value v with Ok true => true | _ => false end.
@@ -579,19 +584,9 @@ Definition is_inclusion_value (v : value) : bool :=
 Definition is_exclusion_value (v : value) : bool :=
   match condition_value v with Ok false => true | _ => false end.
 
-(* syntactic form of the colliding-paths situation: an included path, or _id
-   (always copied by an inclusion), is a proper prefix of an operator path *)
+(* the keys of the plain inclusion entries *)
 Definition included_keys (pr : doc) : list string :=
   map fst (filter (fun kv => negb (operator_entry kv) && is_inclusion_value (snd kv)) pr).
-
-Definition colliding_paths (pr : doc) : bool :=
-  let ops := map split_path (operator_keys pr) in
-  let inc := included_keys pr in
-  let has_incl := match inc with [] => has_elem_match pr | _ => true end in
-  let shared := map split_path (if has_incl then "_id" :: inc else inc) in
-  existsb (fun p => existsb (fun q => proper_prefix p q) ops) shared.
-
-Definition no_colliding_paths (pr : doc) : Prop := colliding_paths pr = false.
 
 (* stable sort of field names, recursively *)
 Fixpoint insert_field (kv : string * value) (l : list (string * value)) : list (string * value) :=
@@ -623,21 +618,15 @@ Fixpoint sort_keys (v : value) : value :=
 
 Definition show_val (v : value) : string := show_sexp (value_to_sexp v).
 
-(* (project <doc> <projection>)    : result and source under the VALUE model
-                                     (the source must be unchanged)
-   (project-wt <doc> <projection>) : result and source under project_src; the
-                                     harness uses this tag for the cases in
-                                     which the real code exhibits the known
-                                     colliding-paths write-through
+(* (project <doc> <projection>) : (<result> <source after the call>)
    (projectdb <op> (<doc>...) <projection>) : through the driver on a fresh
        collection holding the documents: op = find | findone | fau
        (FindOneAndUpdate {} {$set: {zz: 1}}, ReturnDocument After), then
        Find({}) and Find({}) with the projection again:
        (<results> <stored documents> <results again>) *)
-Definition precheck (pr : doc) : option string :=
-  if pr_unmodelled pr then Some "UNMODELLED"
+Definition precheck (docs : list doc) (pr : doc) : option string :=
+  if pr_unmodelled docs pr then Some "UNMODELLED"
   else if order_dependent pr then Some "ORDER-DEPENDENT"
-  else if colliding_paths pr && spelling_clash pr then Some "UNMODELLED"
   else None.
 
 Definition canon_result (pr : doc) (r : doc) : value :=
@@ -649,7 +638,7 @@ Definition show_outcome {A} (r : res A) (f : A -> string) : string :=
   | Err => "ERR"
   | Panic => "PANIC"
   | OutOfFuel => "OUT-OF-FUEL"
-  | Unmodelled => "UNMODELLED"
+  | Unmodelled => "UNMODELLED-DYNAMIC"
   end.
 
 Fixpoint show_values (l : list value) : string :=
@@ -661,25 +650,22 @@ Fixpoint show_values (l : list value) : string :=
 
 Definition run_project (x : sexp) : option string :=
   match x with
-  | SList [SAtom tag; d; pr] =>
-      let wt := String.eqb tag "project-wt" in
-      if String.eqb tag "project" || wt then
-        match doc_of_sexp d, doc_of_sexp pr with
-        | Some d', Some pr' =>
-            match precheck pr' with
-            | Some s => Some s
-            | None =>
-                Some (show_outcome (project_src d' pr')
-                        (fun rs => "(" ++ show_val (canon_result pr' (fst rs)) ++ " " ++
-                                   show_val (VDoc (if wt then snd rs else d')) ++ ")"))
-            end
-        | _, _ => Some "BAD-CASE"
-        end
-      else None
+  | SList [SAtom "project"; d; pr] =>
+      match doc_of_sexp d, doc_of_sexp pr with
+      | Some d', Some pr' =>
+          match precheck [d'] pr' with
+          | Some s => Some s
+          | None =>
+              Some (show_outcome (project_src d' pr')
+                      (fun rs => "(" ++ show_val (canon_result pr' (fst rs)) ++ " " ++
+                                 show_val (VDoc (snd rs)) ++ ")"))
+          end
+      | _, _ => Some "BAD-CASE"
+      end
   | SList [SAtom "projectdb"; SAtom op; SList ds; pr] =>
       match opt_mapM doc_of_sexp ds, doc_of_sexp pr with
       | Some docs, Some pr' =>
-          match precheck pr' with
+          match precheck docs pr' with
           | Some s => Some s
           | None =>
               let stored :=
